@@ -101,3 +101,13 @@ func runSymDev(e *env) error {
 	fmt.Printf("symdev: converters=%d equal=%d unliftable=%d diffs=%d nosym=%d\n", len(items), eq, un, df, noSym)
 	return nil
 }
+
+func init() {
+	campaigns["RANDDEV"] = func(e *env) error {
+		n := 400
+		if e.thorough {
+			n = 3000
+		}
+		return runRandK1(e, "dev", n, 100, rcOpts{})
+	}
+}
